@@ -42,6 +42,9 @@ def repo_corpus():
                          "res self_link;\nres /roots on get -> <[@node]>;\n"}, "main": "file:///w/main.oal"})
     out.append({"mods": {"file:///w/main.oal": "let @a = { 'p (rec x num) };\nlet @b = { 'q @a, 'r (rec y uri) };\nres /r on get -> <@b> :: <status=404, (rec z bool)>;\n"},
                 "main": "file:///w/main.oal"})
+    # an implicit reference whose stored schema is itself a reference (a recursive alias of an @reference)
+    out.append({"mods": {"file:///w/main.oal": "let @b = { 'name str, 'next a };\nlet a = @b;\nres /items on get -> a;\nres /r on get -> <rec x @b>;\n"},
+                "main": "file:///w/main.oal"})
     # user-chosen map keys spelling "$ref" (property, header, media type): objects, not references
     out.append({"mods": {"file:///w/main.oal": "let @a = { '$ref str, 'n [@a] };\nres /x on get : { '$ref int } -> <headers={ '$ref str }, media=\"$ref\", @a>;\n"},
                 "main": "file:///w/main.oal"})
